@@ -39,6 +39,8 @@ SignalEventImpl::~SignalEventImpl()
 
 bool SignalEventImpl::initialize(int signo, Mode mode)
 {
+    disable();  //! 已订阅的信号要先退订，否则订阅记录会残留
+
     sigset_.insert(signo);
     mode_ = mode;
 
@@ -48,6 +50,8 @@ bool SignalEventImpl::initialize(int signo, Mode mode)
 
 bool SignalEventImpl::initialize(const std::set<int> &sigset, Mode mode)
 {
+    disable();  //! 已订阅的信号要先退订，否则订阅记录会残留
+
     sigset_ = sigset;
     mode_ = mode;
 
@@ -57,6 +61,8 @@ bool SignalEventImpl::initialize(const std::set<int> &sigset, Mode mode)
 
 bool SignalEventImpl::initialize(const std::initializer_list<int> &sigset, Mode mode)
 {
+    disable();  //! 已订阅的信号要先退订，否则订阅记录会残留
+
     for (auto signo : sigset)
         sigset_.insert(signo);
 
